@@ -46,6 +46,7 @@ type frame struct {
 	depth   int
 	hdr     map[*ssa.BasicBlock]*hdrInfo
 	declFrames map[*loopInfo]*declFrame
+	assertHit  map[int]bool
 }
 
 // declFrame is a loop frame declared with a loop-level assigns clause.
@@ -132,7 +133,7 @@ type deferred struct {
 func (vc *VC) newFrame(fn *ssa.Function, spec *FuncSpec, top bool, guard string, depth int) *frame {
 	vc.nfresh++
 	f := &frame{vc: vc, fn: fn, prefix: fmt.Sprintf("f%d_", vc.nfresh), vals: map[ssa.Value]Val{}, spec: spec, top: top, guard: guard,
-		inB: map[*ssa.BasicBlock]string{}, outSt: map[*ssa.BasicBlock]*State{}, edgeG: map[[2]int]string{}, depth: depth, hdr: map[*ssa.BasicBlock]*hdrInfo{}}
+		inB: map[*ssa.BasicBlock]string{}, outSt: map[*ssa.BasicBlock]*State{}, edgeG: map[[2]int]string{}, depth: depth, hdr: map[*ssa.BasicBlock]*hdrInfo{}, assertHit: map[int]bool{}}
 	f.loops, f.back = findLoops(fn)
 	if spec != nil {
 		for _, li := range f.loops {
@@ -607,6 +608,32 @@ func (vc *VC) assertHeapWF(st *State, pats []modPat) {
 		wf := map[string]string{"Loc": "wf-loc", "Slice": "wf-slice", "Iface": "wf-iface"}[srt]
 		vc.assert(fmt.Sprintf("(forall ((l! Loc)) (! (%s (select %s l!) %s) :pattern ((select %s l!))))", wf, h, st.Top, h))
 	}
+	// values stored in maps are well-formed references too
+	for _, key := range vc.extraOrder {
+		if !strings.HasPrefix(key, "MV_") {
+			continue
+		}
+		if pats != nil && !patsTouch(pats, key) {
+			continue
+		}
+		var wf string
+		switch {
+		case strings.HasSuffix(key, "_Loc"):
+			wf = "wf-loc"
+		case strings.HasSuffix(key, "_Slice"):
+			wf = "wf-slice"
+		case strings.HasSuffix(key, "_Iface"):
+			wf = "wf-iface"
+		default:
+			continue
+		}
+		h := vc.heapOf(st, key)
+		ks := vc.mapKeySort[key]
+		if ks == "" {
+			continue
+		}
+		vc.assert(fmt.Sprintf("(forall ((l! Loc) (k! %s)) (! (%s (select (select %s l!) k!) %s) :pattern ((select (select %s l!) k!))))", ks, wf, h, st.Top, h))
+	}
 }
 
 // execBlock runs the non-phi instructions of b.
@@ -643,6 +670,7 @@ func (f *frame) execBlock(b *ssa.BasicBlock, in string, st *State) {
 			f.outSt[b] = st
 			return
 		default:
+			f.checkAsserts(ins, in, st)
 			f.execInstr(ins, in, st)
 		}
 	}
